@@ -222,6 +222,37 @@ def eval_subst_selector(args):
 _S2 = {}
 
 
+def ref_schema(kind, where, shared):
+    """XSD 1.1: an identity constraint defined on one element and reused on another with ref=; the two scope elements share the declaration of the selected element (the same named type,
+    or a reference to the same global element) or have local declarations of their own"""
+    import xmlschema
+    k = '<xs:element name="k" minOccurs="0" maxOccurs="unbounded"><xs:complexType><xs:attribute name="v" type="xs:decimal"/></xs:complexType></xs:element>'
+    body = {'type': '', 'global': '<xs:complexType><xs:sequence><xs:element ref="k" minOccurs="0" maxOccurs="unbounded"/></xs:sequence></xs:complexType>', 'local': f'<xs:complexType><xs:sequence>{k}</xs:sequence></xs:complexType>'}[shared]
+    tattr = ' type="Box"' if shared == 'type' else ''
+    dfn = f'<xs:{kind} name="K"><xs:selector xpath="k"/><xs:field xpath="@v"/></xs:{kind}>'; ref = f'<xs:{kind} ref="K"/>'
+    c1, c2 = (dfn, ref) if where == 'first' else (ref, dfn)
+    glob = (f'<xs:complexType name="Box"><xs:sequence>{k}</xs:sequence></xs:complexType>' if shared == 'type' else '') + ('<xs:element name="k"><xs:complexType><xs:attribute name="v" type="xs:decimal"/></xs:complexType></xs:element>' if shared == 'global' else '')
+    return xmlschema.XMLSchema11(f'<xs:schema {XS}>{glob}<xs:element name="r"><xs:complexType><xs:sequence><xs:element name="first"{tattr}>{body}{c1}</xs:element>'
+                                 f'<xs:element name="second"{tattr}>{body}{c2}</xs:element></xs:sequence></xs:complexType></xs:element></xs:schema>')
+
+
+def eval_by_ref(args):
+    kind, where, shared = args
+    s = ref_schema(kind, where, shared); bad = []; n = 0
+    rows = [(), (1,), (None,), (1, 1), (1, 2), (2, None), (1, 2, 1)]
+    lex = {1: ['1', '1.0', '01'], 2: ['2']}
+    for t1, t2 in itertools.product(rows, repeat=2):
+        if kind == 'unique' and (None in t1 or None in t2): continue
+        n += 1
+        el = lambda tag, t: f'<{tag}>' + ''.join('<k' + (f' v="{lex[v][i % len(lex[v])]}"' if v is not None else '') + '/>' for i, v in enumerate(t)) + f'</{tag}>'
+        doc = '<r>' + el('first', t1) + el('second', t2) + '</r>'
+        exp = key_table_ok(kind, [(v,) for v in t1], []) and key_table_ok(kind, [(v,) for v in t2], [])
+        try: got = s.is_valid(doc)
+        except Exception as e: got = f'EXC {type(e).__name__}'
+        if got != exp and len(bad) < 3: bad.append(dict(doc=doc, got=got, exp=exp))
+    return dict(args=list(args), cases=n, bad=bad)
+
+
 def run(tier, seed, open_findings):
     jobs = [(nf, ft, kind, ver, seed, tier) for nf in (1, 2) for ft in LEX for kind in ('key', 'unique') for ver in ('1.0', '1.1') if not (nf == 2 and ft in DEFAULTS and tier != 'thorough')]
     jobs += [(1, ft, kind, '1.1', seed, tier, True) for ft in ('integer', 'decimal', 'boolean', 'UIntBool') for kind in ('key', 'unique')]
@@ -248,6 +279,9 @@ def run(tier, seed, open_findings):
     ssjobs = [(ver, kind, rows, refs) for ver in ('1.0', '1.1') for kind in ('key', 'unique') for n_ in (1, 2) for rows in itertools.product(rows1, repeat=n_) for refs in ((), (1,), (2,))
               if not (kind == 'unique' and any(v is None for _, v in rows))]
     ssres = pmap(eval_subst_selector, ssjobs)
+    rres = [eval_by_ref((kind, where, shared)) for kind in ('key', 'unique') for where in ('first', 'second') for shared in ('type', 'global', 'local')]
+    out.append(result('C08.xsd11_constraints_by_reference', '12 XSD 1.1 schemas: a key / unique defined on one of two sibling elements and reused on the other with ref= (shared named type, shared global element, local declarations) x tables of <= 3 rows in each scope',
+                      sum(r['cases'] for r in rres), [dict(case=dict(by_ref=r['args'], doc=b['doc'], exp=b['exp']), observed=dict(valid=b['got']), required=dict(valid=b['exp'])) for r in rres for b in r['bad']], exhaustive=True))
     out.append(result('C08.selectors_over_substitutes', f'{len(ssjobs)} documents: key / unique with the selector item|special|loose (special substitutes item, loose comes in through a wildcard), 1-2 selected rows over {{absent, 1, 2}} and one reference',
                       len(ssjobs), [dict(case=dict(subst_selector=True, ver=r['ver'], kind=r['kind'], doc=r['doc'], exp=r['exp']), observed=dict(valid=r['got']), required=dict(valid=r['exp'])) for r in ssres if r], exhaustive=True))
     out.append(result('C08.refer_across_levels', f'{len(ljobs)} documents: keyref on r referring to a key / unique declared on the repeated child g; 0-2 g elements with <= 2 rows, <= 2 references over {{absent, 1, 2}}',
@@ -279,6 +313,8 @@ def run(tier, seed, open_findings):
 
 
 def replay(check_name, case):
+    if case.get('by_ref'):
+        got = ref_schema(*case['by_ref']).is_valid(case['doc']); return dict(ok=got == case['exp'], observed=dict(valid=got), required=dict(valid=case['exp']))
     if case.get('subst_selector'):
         sch = subst_selector_schema(case['ver'], case['kind']); got = sch.is_valid(case['doc']); return dict(ok=got == case['exp'], observed=dict(valid=got), required=dict(valid=case['exp']))
     if case.get('qnames'):
